@@ -30,6 +30,87 @@ Theorem C08_seq_unique_refuted :
 Proof. exact seq_unique_refuted. Qed.
 Print Assumptions C08_seq_unique_refuted.
 
+(* ---- the keyed model (any number of sockets, node pairs, both directions; Qasm/EprKeyed.v) ------------------------------------
+   ktrace s evs = the events with what each returned (krun, the list the correspondence compares with the implementation);
+   enq_at / deq_at Q = what was appended to / popped from the receiving queue Q = (node, socket); made_on k = the records
+   created on the directed key k = (creator node, creator socket, receiver node, receiver socket);
+   recv_from k = the deliveries of k's queue that carry k's sender fields. *)
+From SQ Require Import Qasm.EprKeyed.
+
+(* FIFO per receiving queue, every event list, every starting state *)
+Theorem C08_keyed_queue_fifo : forall evs s Q,
+  deq_at Q (ktrace s evs) ++ q_get Q (k_q (kfinal s evs)) = q_get Q (k_q s) ++ enq_at Q (ktrace s evs).
+Proof. exact keyed_queue_fifo. Qed.
+Print Assumptions C08_keyed_queue_fifo.
+
+(* per directed key, EVERY interleaving with traffic on any other keys (shared queues included): (a) FIFO, (b) sequence
+   numbers start, start+1, ... (distinct), (c) the i-th item received from the key is the i-th record created on it
+   (same sequence number, the creator as remote node, the sockets as the creator named them), (d) completeness *)
+Theorem C08_keyed_pairing : forall s evs c ls r rs,
+  let k := (c, ls, r, rs) in
+  filter (sent_by k) (q_get (r, rs) (k_q s)) = [] ->
+  let tr := ktrace s evs in
+  let start := ctr_get k (k_ctr s) in
+  let queued := filter (sent_by k) (q_get (r, rs) (k_q (kfinal s evs))) in
+  recv_from k tr ++ queued = made_on k tr /\
+  made_on k tr = map (item_of k) (seq start (count_on k evs)) /\ NoDup (map i_seq (made_on k tr)) /\
+  (forall i it, nth_error (recv_from k tr) i = Some it ->
+     nth_error (made_on k tr) i = Some it /\
+     i_seq it = start + i /\ i_from it = c /\ i_from_sock it = ls /\ i_to_sock it = rs) /\
+  (length (recv_from k tr) = count_on k evs -> recv_from k tr = made_on k tr /\ queued = []).
+Proof. exact keyed_pairing. Qed.
+Print Assumptions C08_keyed_pairing.
+
+(* without looking at the sender fields "the receiver's i-th result on the socket is the creator's i-th pair" is false when
+   two creating keys share a receiving queue (the code pops the head of the socket's deque whoever sent it) ... *)
+Theorem C08_shared_queue_unfiltered_refuted :
+  exists evs k, let tr := ktrace kinit evs in
+    count_on k evs = 1 /\ length (deq_at (qk k) tr) = 1 /\ deq_at (qk k) tr <> made_on k tr /\
+    recv_from k tr = [] /\ map i_from (deq_at (qk k) tr) = [2] /\ map i_from (made_on k tr) = [0].
+Proof. exact shared_queue_unfiltered_refuted. Qed.
+Print Assumptions C08_shared_queue_unfiltered_refuted.
+
+(* ... and true exactly when the key is the only one that creates into its receiving queue: then everything polls of the
+   receiving socket return is the key's pairs, index by index *)
+Theorem C08_keyed_pairing_sole : forall s evs c ls r rs,
+  let k := (c, ls, r, rs) in
+  q_get (r, rs) (k_q s) = [] -> sole_creator k evs ->
+  let tr := ktrace s evs in
+  let start := ctr_get k (k_ctr s) in
+  let got := deq_at (r, rs) tr in
+  let queued := q_get (r, rs) (k_q (kfinal s evs)) in
+  got ++ queued = made_on k tr /\
+  made_on k tr = map (item_of k) (seq start (count_on k evs)) /\ NoDup (map i_seq (made_on k tr)) /\
+  (forall i it, nth_error got i = Some it ->
+     nth_error (made_on k tr) i = Some it /\
+     i_seq it = start + i /\ i_from it = c /\ i_from_sock it = ls /\ i_to_sock it = rs) /\
+  (length got = count_on k evs -> got = made_on k tr /\ queued = []).
+Proof. exact keyed_pairing_sole. Qed.
+Print Assumptions C08_keyed_pairing_sole.
+
+(* the hypothesis is satisfiable: three nodes, two sockets, both directions of one socket pair, polls before and after *)
+Theorem C08_keyed_example :
+  sole_creator (0, 0, 1, 0) ex_traffic /\ sole_creator (1, 0, 0, 0) ex_traffic /\ sole_creator (0, 1, 1, 1) ex_traffic /\
+  sole_creator (2, 0, 1, 2) ex_traffic /\
+  count_on (0, 0, 1, 0) ex_traffic = 3 /\
+  map i_seq (deq_at (1, 0) (ktrace kinit ex_traffic)) = [0; 1] /\
+  map i_seq (q_get (1, 0) (k_q (kfinal kinit ex_traffic))) = [2] /\
+  krun kinit [KPoll 1 2] = [None].
+Proof. exact ex_sole_creators. Qed.
+Print Assumptions C08_keyed_example.
+
+(* the one-direction model above is the keyed model restricted to one key (any key, any start value) *)
+Theorem C08_one_direction_is_special_case : forall k start evs,
+  let s := erun (init_st start) evs in
+  let kevs := map (emb k) evs in
+  let tr := ktrace (kstart k start) kevs in
+  made s = map i_seq (made_on k tr) /\ got s = map i_seq (deq_at (qk k) tr) /\
+  queue s = map i_seq (q_get (qk k) (k_q (kfinal (kstart k start) kevs))) /\
+  nxt s = ctr_get k (k_ctr (kfinal (kstart k start) kevs)) /\
+  creates evs = count_on k kevs /\ sole_creator k kevs.
+Proof. exact one_direction_is_special_case. Qed.
+Print Assumptions C08_one_direction_is_special_case.
+
 (* the register the creator's native operations build is exactly <XX, ZZ> = |Phi+> *)
 Theorem C08_bell_state : bell_tab = [[true; true; false; false; false]; [false; false; true; true; false]].
 Proof. exact bell_state. Qed.
